@@ -16,6 +16,24 @@ from . import p11const as K
 from .p11 import P11, rvname, statename
 
 
+DRIVER_ERROR = [None]
+
+
+def run_main(fn):
+    """Runs a driver's main(); a python exception in the DRIVER is a failure of the machinery (exit 3, DriverError
+    event), never a verdict about the library.  A process that ends any other way without closing its trace
+    (exit() or a crash inside the library) leaves the trace unterminated; the pipeline appends ProcessDied."""
+    import traceback
+    try:
+        fn()
+    except SystemExit:
+        raise
+    except BaseException:
+        DRIVER_ERROR[0] = traceback.format_exc()[-1500:]
+        sys.stderr.write(DRIVER_ERROR[0])
+        sys.exit(3)
+
+
 class Emitter(object):
     def __init__(self, path):
         self.f = open(path, "w")
@@ -37,7 +55,8 @@ class Emitter(object):
     def _died(self):
         if not self.closed:
             try:
-                self.f.write('{"e":"ProcessDied"}\n')
+                self.f.write('{"e":"DriverError","msg":%s}\n' % json.dumps(DRIVER_ERROR[0]) if DRIVER_ERROR[0]
+                             else '{"e":"ProcessDied"}\n')
                 self.f.close()
             except Exception:
                 pass
